@@ -387,12 +387,19 @@ impl Harness for C16 {
         for n in 6..=(if t { 16 } else { 12 }) {
             jobs.push(Job::new(format!("cv-shuffle-dev2-n{}", n), json!({"kind": "cv", "n": n, "shuffle": true, "dev": true})).with_dev_bound(2));
         }
+        let jobs = {
+            let mut j: Vec<Job> = jobs;
+            j.insert(0, Job::new("builders", json!({"kind": "builders"})));
+            j
+        };
         Plan {
             jobs,
             budget_s: if t { 1500 } else { 40 },
             case_deadline_ms: 20_000,
-            floors: vec![("uneven_folds", 100), ("non_identity_permutations", 100), ("split_empty_train", 10), ("large_fold_counts", 50)],
+            floors: vec![
+                ("builder_chains", 5),("uneven_folds", 100), ("non_identity_permutations", 100), ("split_empty_train", 10), ("large_fold_counts", 50)],
             bounds: json!({
+                "builders": mc_sc::builders::BOUNDS,
                 "kfold_unshuffled": "every 2<=k<=n<=64; plus n in {255,256,257,300,513} with k in {2,3,7,64,127..129,200,255..258,300,511..513,n}",
                 "split_unshuffled": format!("every 1<=n<=64 x {} test sizes with floor_f32(n*ts)>=1", TEST_SIZES.len()),
                 "shuffled_all_permutations": format!("every Fisher-Yates answer sequence (all n! permutations) for n<={} (kfold: every k; split: every test size), cv n<={}", nmax_all, if t { 6 } else { 5 }),
@@ -403,6 +410,9 @@ impl Harness for C16 {
     }
 
     fn run(&self, job: &Job) {
+        if job.kind() == "builders" {
+            return mc_sc::builders::run("C16");
+        }
         let n = job.u("n");
         let shuffle = job.b("shuffle");
         let mode = if job.b("dev") { RngMode::Deviations } else { RngMode::All };
@@ -429,6 +439,7 @@ impl Harness for C16 {
                 }
                 mc::count("large_fold_counts");
             }
+            "builders" => mc_sc::builders::run("C16"),
             other => panic!("unknown job kind {}", other),
         }
     }
